@@ -450,8 +450,8 @@ PROPS = {
         "assumptions": ["positions with pos + K <= len (outside: asserted by the crate)"],
     },
     "C12": {
-        "lean_modules": ["Dbg.Props.C12", "Dbg.Props.C10"],
-        "theorems": ["KSpec.rc_rc", "KSpec.rc_getElem", "KSpec.windows_rc", "KSpec.rc_window", "Kmer.C12_kmer_rc_involution", "Kmer.C12_minRc_spec",
+        "lean_modules": ["Dbg.Props.C12", "Dbg.Props.C12b", "Dbg.Props.C10"],
+        "theorems": ["Compress.exts_rc", "Compress.exts_complement", "Compress.exts_reverse", "Compress.exts_set", "Compress.exts_add", "Compress.exts_merge", "Compress.exts_fromSingleDirs", "Compress.exts_unique", "Compress.exts_num", "Compress.exts_singleDir", "Compress.exts_mk", "Compress.exts_fromSliceBounds", "Compress.exts_debug", "KSpec.rc_rc", "KSpec.rc_getElem", "KSpec.windows_rc", "KSpec.rc_window", "Kmer.C12_kmer_rc_involution", "Kmer.C12_minRc_spec",
                      "Kmer.C12_minRc_rc", "Kmer.C12_minRcFlip", "Kmer.C12_isPalindrome", "Compress.C12_exts_rc", "Kmer.C10_rc",
                      "C12.C12_dnaString", "C12.C12_lmer", "C12.C12_slice", "C12.C12_kmers_of_rc"],
         "partial": [],
